@@ -91,6 +91,7 @@ func runC30(c *Ctx) {
 		return
 	}
 	info := pk.TypesInfo
+	c30Extra(c, p, pk, p.Pkg("internal/loader"))
 	fd := p.MustFunc("report-implies-record", pk, "runTest")
 	if fd == nil {
 		return
